@@ -84,6 +84,11 @@ class Tree(object):
                 data = b''
             elif kind == 'binary':
                 data = bytes(range(256)) * 3 + ('|%s|%s|' % (path, nonce)).encode('utf8') + b'\x00\xff'
+            elif isinstance(kind, tuple):       # ('sized-text' | 'sized-binary', n): a file of exactly n bytes
+                unit = (('%s %s\n' % (path, nonce)).encode('utf8')) if kind[0] == 'sized-text' else (bytes(range(256)) + nonce.encode())
+                data = (unit * (kind[1] // len(unit) + 1))[:kind[1]]
+                if len(data) >= len(nonce):
+                    data = data[:len(data) - len(nonce)] + nonce.encode()
             elif kind == 'crlf':
                 data = ('line1\r\nline2\rline3\n%s %s\r\n' % (path, nonce)).encode('utf8') + b'caf\xe9 \xff\xfe\r'
             else:
@@ -110,6 +115,10 @@ class Tree(object):
                           ('units/10\u00c5.dat', 'binary'), ('u\u0308bersicht/menu\u0308.html', 'text'), ('cafe\u0301.txt', 'text'),
                           ('5\u2126.dat', 'text'),
                           # '..' inside a name is not a parent reference
+                          # no extension to guess a type from (the content is sniffed), in sizes around the sniffing buffers
+                          ('LICENSE', ('sized-text', 2500)), ('blob', ('sized-binary', 1536)), ('README', ('sized-text', 4096)),
+                          ('NOTICE', ('sized-text', 4097)), ('data/dump', ('sized-binary', 70000)), ('data/K', ('sized-text', 1024)),
+                          ('data/K1', ('sized-text', 1025)),
                           ('release..notes.txt', 'text'), ('v1..2/readme.txt', 'text'), ('sub/..settings', 'text'), ('sub/.../deep.bin', 'binary'),
                           ('sub/trailing..', 'text'), ('a..', 'text'), ('...', 'text')]:
             put(os.path.join(self.root1, rel), kind)
@@ -526,7 +535,9 @@ def judge_faults(sh, cfg, segs, faults, headers=None):
 def vocabulary(tree):
     pieces = [p for p in tree.root1.split(os.sep) if p][-3:]      # e.g. verif-c14-xxxx, area, root1
     return ['a.txt', 'sub', 'c.html', 'deep', 'both.txt', 'sp ace.txt', '..data', '.hidden', '.', '..', '', '...',
-            'secret.txt', 'beside', 'secret2.txt', 'above-secret.txt', 'root1-private', 'key.txt', 'root1.bak'] + pieces[:2]
+            'secret.txt', 'beside', 'secret2.txt', 'above-secret.txt', 'root1-private', 'key.txt', 'root1.bak',
+            # what is left of doubly percent-encoded traversal after the server decoded the path once: plain names
+            '%2e%2e', '%2e%2e%2fsecret.txt', '..%2fsecret.txt', '%2e%2e%2f%2e%2e%2fabove-secret.txt'] + pieces[:2]
 
 
 def configs(tree):
